@@ -159,6 +159,39 @@ def KView.down (v : KView) (tf pf : Nat) : KRes :=
     lineTimeNs := v.lineTimeNs * tf,
     processed := true }
 
+/-- other reducers a user may pass as `reduce=`: `np.max`, `np.min`, `np.ptp` (max − min; it does NOT factor into
+    a reduction over position followed by one over time) -/
+inductive Red where
+  | max | min | ptp
+deriving Repr, DecidableEq
+
+def Red.apply : Red → List Int → Int
+  | .max, l => maxList l
+  | .min, l => minList l
+  | .ptp, l => maxList l - minList l
+
+/-- the `pf × tf` block number `j` (in time) of a band of `pf` rows, row-major -/
+def block2d (band : List (List Pix)) (tf j : Nat) : List Pix := band.flatMap fun r => (r.drop (j * tf)).take tf
+
+/-- `block_reduce(img, (pf, tf), func=red)[: P//pf, : L//tf]`: every output pixel is `red` over ALL pixels of its
+    two-dimensional block (timestamps: the block's smallest / largest) -/
+def blockReduceWith (red : Red) (img : Img) (pf tf : Nat) : Img :=
+  (chunks pf img).map fun band =>
+    (List.range (numCols band / tf)).map fun j =>
+      let b := block2d band tf j
+      ⟨red.apply (b.map (·.v)), minList (b.map (·.tmin)), maxList (b.map (·.tmax))⟩
+
+/-- `downsampled_by(time_factor, position_factor, reduce=red)` -/
+def KView.downWith (v : KView) (red : Red) (tf pf : Nat) : KRes :=
+  if tf = 0 ∨ pf = 0 then .err .valueError else
+  .view { v with
+    img := blockReduceWith red v.img pf tf,
+    rangesDefined := v.rangesDefined && tf == 1,
+    px := if v.unit = 2 then v.px else v.px * pf,
+    pxUm := v.pxUm.map (· * pf),
+    lineTimeNs := v.lineTimeNs * tf,
+    processed := true }
+
 /-- `calibrate_to_kbp(length_kbp)` -/
 def KView.kbp (v : KView) (len : Rat) : KRes :=
   if v.unit = 1 then .err .runtimeError
@@ -170,6 +203,7 @@ inductive KOp where
   | crop (lo hi : Rat)
   | flip
   | down (tf pf : Nat)
+  | downWith (red : Red) (tf pf : Nat)
   | kbp (len : Rat)
 deriving Repr
 
@@ -178,6 +212,7 @@ def KView.apply (v : KView) : KOp → KRes
   | .crop lo hi => v.crop lo hi
   | .flip => v.flip
   | .down tf pf => v.down tf pf
+  | .downWith red tf pf => v.downWith red tf pf
   | .kbp len => v.kbp len
 
 /-- run a program; stops at the first error / empty result, and at a view without pixel rows
@@ -341,6 +376,9 @@ def kop? (s : String) : Option KOp :=
   | ["crop", lo, hi] => do let lo ← rat? (lo.replace "_" "/"); let hi ← rat? (hi.replace "_" "/"); some (.crop lo hi)
   | ["flip"] => some .flip
   | ["down", tf, pf] => do let tf ← tf.toNat?; let pf ← pf.toNat?; some (.down tf pf)
+  | ["downr", red, tf, pf] => do
+    let red ← (match red with | "max" => some Red.max | "min" => some Red.min | "ptp" => some Red.ptp | _ => none)
+    let tf ← tf.toNat?; let pf ← pf.toNat?; some (.downWith red tf pf)
   | ["kbp", len] => do let len ← rat? (len.replace "_" "/"); some (.kbp len)
   | _ => none
 
